@@ -88,7 +88,7 @@ class Recorder:
         rec = self
 
         def base(self_, new_lines, ln, col, end_ln, end_col, copy_lines, path, set_ast=True, mode=None, first_lineno=0,
-                 first_line_col_delta=0):
+                 first_line_col_delta=0, *rest, **kw):
             ev = None
             if rec.armed:
                 root = self_.root
@@ -96,13 +96,14 @@ class Recorder:
                       'path': None if not path else [[p.name, p.idx] for p in path] if not isinstance(path, str) else path,
                       'set_ast': bool(set_ast), 'mode': None if mode is None else getattr(mode, '__name__', str(mode)),
                       'first_lineno': first_lineno, 'first_line_col_delta': first_line_col_delta,
+                      'blkhead_end': list(rest[0]) if rest and rest[0] else (list(kw['blkhead_end']) if kw.get('blkhead_end') else None),
                       'self_kind': self_.a.__class__.__name__,
                       'self_path': _path_of(root, self_), 'self_is_root': self_ is root, 'parsed': []}
                 rec.events.append(ev)
             rec.in_base += 1
             try:
                 return o_base(self_, new_lines, ln, col, end_ln, end_col, copy_lines, path, set_ast, mode, first_lineno,
-                              first_line_col_delta)
+                              first_line_col_delta, *rest, **kw)
             finally:
                 rec.in_base -= 1
 
@@ -776,6 +777,8 @@ def corr_plan(r, m):
                 bad.append(f'set_ast differs: impl={base["set_ast"]}')
             if base['first_lineno'] != m['first_lineno']:
                 bad.append(f'first_lineno differs: impl={base["first_lineno"]} model={m["first_lineno"]}')
+            if base.get('blkhead_end') is not None and not m['set_ast'] and base['blkhead_end'] != m['head_end_new']:
+                bad.append(f'blkhead_end differs: impl={base["blkhead_end"]} model={m["head_end_new"]}')
             if base['first_line_col_delta'] != m['delta']:
                 bad.append(f'first_line_col_delta differs: impl={base["first_line_col_delta"]} model={m["delta"]}')
             if not base['parsed'] or base['parsed'][0]['src'] != '\n'.join(m['handed']):
@@ -798,6 +801,59 @@ def corr_plan(r, m):
 
 def pfst_text(text):
     return text + '\n' if text.endswith('\\\n') else text      # documented convention of pfst's parse functions
+
+
+def has_blkhead_end_check():
+    """does the implementation under test have the header-end guard of fix C10-F9 (parameter `blkhead_end` of
+    `_reparse_raw_base`)?  The model has the guard as an input (`headEndSame`); it is fed only if the code has it."""
+    import inspect
+    import fst.fst_raw as fr
+    return 'blkhead_end' in inspect.signature(recorder()._orig[0] if _REC else fr._reparse_raw_base).parameters
+
+
+BLOCK_ORDER = ('body', 'handlers', 'orelse', 'finalbody', 'cases')      # order of `Pfst.Raw.Blocks`
+
+
+def ser_blocks(n):
+    return [None if getattr(n, f, None) is None else [ser_node(c) for c in getattr(n, f)] for f in BLOCK_ORDER]
+
+
+def header_colon_end(src, node):
+    """(0-based line, char column just past the ':') of the colon that ends the block header of `node` (a node of
+    `ast.parse(src)`): first ':' at bracket depth 0 after the last thing in the header; tokenizer only"""
+    import io
+    lines = src.split('\n')
+    start = None
+    if getattr(node, 'end_col_offset', None) is not None:
+        start = (node.lineno, char_col(lines[node.lineno - 1], node.col_offset))
+    for f in node._fields:
+        if f in BLOCK_FIELDS:
+            continue
+        v = getattr(node, f, None)
+        for x in (v if isinstance(v, list) else [v]):
+            if isinstance(x, ast.AST):
+                for d in ast.walk(x):
+                    if getattr(d, 'end_col_offset', None) is not None:
+                        e = (d.end_lineno, char_col(lines[d.end_lineno - 1], d.end_col_offset))
+                        if start is None or e > start:
+                            start = e
+    if start is None:
+        return None
+    depth = 0
+    try:
+        for t in tokenize.generate_tokens(io.StringIO(src).readline):
+            if t.start < start:
+                continue
+            if t.type == tokenize.OP:
+                if t.string in '([{':
+                    depth += 1
+                elif t.string in ')]}':
+                    depth -= 1
+                elif t.string == ':' and depth <= 0:
+                    return (t.start[0] - 1, t.start[1] + 1)
+    except Exception:
+        pass
+    return None
 
 
 def _case_kw(src, pattern):
@@ -897,6 +953,9 @@ def phase_c(arg):
             shape_ok = False
             a, b = a or 0, b or 0
         mode['n_old_head'], mode['n_new_head'] = a, b      # (a header-only graft onto another kind of node is refused by the guard)
+        mode['old_blocks'], mode['new_blocks'] = ser_blocks(old), ser_blocks(wsub)     # None (no such field) vs [] kept apart
+        if has_blkhead_end_check():
+            mode['head_end_same'] = header_colon_end(text, wsub) == tuple(m['head_end_new'])
     off = [len(new_lines), ln, end_ln, util.byte_len(lines[end_ln][:end_col]), util.byte_len(new_lines[-1]),
            util.byte_len(lines[ln][:col])]
     out['shape_ok'] = shape_ok
@@ -1030,7 +1089,9 @@ def phase_e(arg):
         if excluded:
             res['tally']['excluded_trailing_backslash'] = True
             return res
-        if incremental:
+        if incremental and mode == 'head':
+            cls = 'header-edit-brings-own-body|accepted-invalid'
+        elif incremental:
             cls = f'accepts-invalid-source|wrapper-accepted|{syntax_kind(err)}'
         elif mode == 'special':
             cls = f'accepts-invalid-source|special-path|{syntax_kind(err)}'
@@ -1064,7 +1125,7 @@ def phase_e(arg):
     else:
         st = ev_of(r, 'facts')['stmtlike']
         if util.dump(P) != util.dump(R):
-            cls = 'boundary-changing-splice-accepted'
+            cls = 'header-edit-brings-own-body' if mode == 'head' else 'boundary-changing-splice-accepted'
             what = 'structure differs from the full parse: ' + util.first_diff(util.dump(P), util.dump(R))
         else:
             diffs = pos_diffs(P, R)
@@ -1076,3 +1137,84 @@ def phase_e(arg):
             what = 'positions differ from the full parse: ' + '; '.join(f'{k}.{a} live={x} parsed={y}' for _, k, a, x, y in diffs[:3])
     res['fail'].append((sig(cls), what))
     return res
+
+
+# ---------------------------------------------------------------------------------------------------------------------
+# deterministic header edits: every block statement kind x every legal combination of optional blocks
+
+_B = '    x = 1\n'
+HEADER_TEMPLATES = [
+    'if abc  :\n' + _B, 'if abc  :\n' + _B + 'else  :\n' + _B, 'if abc  :\n' + _B + 'elif  de  :\n' + _B,
+    'if abc  :\n' + _B + 'elif  de  :\n' + _B + 'else :\n' + _B,
+    'for  i  in  xs  :\n' + _B, 'for  i  in  xs  :\n' + _B + 'else  :\n' + _B,
+    'while  abc  :\n' + _B, 'while  abc  :\n' + _B + 'else  :\n' + _B,
+    'try   :\n' + _B + 'finally  :\n' + _B,
+    'try   :\n' + _B + 'except  Eab  as  e  :\n' + _B,
+    'try   :\n' + _B + 'except  Eab  :\n' + _B + 'except  :\n' + _B,
+    'try   :\n' + _B + 'except  Eab  :\n' + _B + 'else  :\n' + _B,
+    'try   :\n' + _B + 'except  Eab  :\n' + _B + 'finally  :\n' + _B,
+    'try   :\n' + _B + 'except  Eab  :\n' + _B + 'else  :\n' + _B + 'finally  :\n' + _B,
+    'try   :\n' + _B + 'except*  Eab  :\n' + _B,
+    'try   :\n' + _B + 'except*  Eab  :\n' + _B + 'finally  :\n' + _B,
+    'try \\\n  :\n' + _B + 'finally:\n' + _B,
+    'with  abc  as  d  :\n' + _B, 'with  abc  :\n' + _B, 'with  abc , de  as  f  :\n' + _B,
+    'match  abc  :\n    case  1  :\n        x = 1\n', 'match  abc  :\n    case  [a, b]  if  g  :\n        x = 1\n    case  _  :\n        y\n',
+    'def  f  ( a , b = 1 )  :\n' + _B, 'def  f  ( )  ->  T  :\n' + _B, '@dec\ndef  f  ( a )  :\n' + _B,
+    '@dec ( 1 )\n@other\nclass  C  ( Bab , k = v )  :\n' + _B, 'class  C  :\n' + _B, 'class  C  ( )  :\n' + _B,
+    'async  def  f  ( a )  :\n' + _B,
+    'async def g():\n    async  for  i  in  xs  :\n        x = 1\n    async  for  i  in  xs  :\n        x = 1\n    else  :\n        y\n',
+    'async def g():\n    async  with  abc  as  d  :\n        x = 1\n',
+    'if abc  : x = 1\n', 'while  abc  : x = 1; y = 2\n', 'try  : x = 1\nfinally  : y = 2\n', 'class  C  : x = 1\n',
+]
+
+
+def _indent(src, prefix):
+    return prefix + ''.join('    ' + l + '\n' if l else '\n' for l in src.split('\n')[:-1])
+
+
+def header_edits():
+    """[(src, (new, ln, col, end_ln, end_col), label)]: edits wholly inside a block header (before its colon)"""
+    import io
+    import keyword
+    out = []
+    for tmpl in HEADER_TEMPLATES:
+        for src in (tmpl, 'k = 0\n' + tmpl + 'z = 9\n', _indent(tmpl, 'def outer():\n'), _indent(tmpl, 'class K:\n    q = 0\n')):
+            try:
+                tree = ast.parse(src)
+                toks = list(tokenize.generate_tokens(io.StringIO(src).readline))
+            except Exception:
+                continue
+            lines = src.split('\n')
+            for node in ast.walk(tree):
+                if node.__class__.__name__ not in BLOCK_KINDS or node.__class__.__name__ in ('FunctionDef', 'ClassDef') and \
+                        node.name in ('outer', 'K', 'g'):
+                    continue
+                colon = header_colon_end(src, node)
+                if colon is None:
+                    continue
+                if getattr(node, 'end_col_offset', None) is not None:
+                    decos = getattr(node, 'decorator_list', None)
+                    first = decos[0] if decos else node
+                    start = (first.lineno, char_col(lines[first.lineno - 1], first.col_offset) - (1 if decos else 0))
+                else:
+                    start = _case_kw(src, node.pattern)
+                end = (colon[0] + 1, colon[1] - 1)          # tokenizer coordinates of the colon
+                hdr = [t for t in toks if start <= t.start and t.end <= end and t.type not in (tokenize.NL, tokenize.NEWLINE, tokenize.INDENT, tokenize.DEDENT, tokenize.COMMENT)]
+                kind = node.__class__.__name__
+                for i, t in enumerate(hdr):
+                    r = (t.start[0] - 1, t.start[1], t.end[0] - 1, t.end[1])
+                    out.append((src, (t.string, *r), kind + ':identity-token'))
+                    if i == 0 and len(t.string) > 2:
+                        out.append((src, (t.string[:2], r[0], r[1], r[0], r[1] + 2), kind + ':identity-part'))
+                    if t.type == tokenize.NAME and not keyword.iskeyword(t.string) and t.string not in ('match', 'case', '_'):
+                        out.append((src, ('zz', *r), kind + ':rename'))
+                        out.append((src, ('(' + t.string + ')', *r), kind + ':paren'))
+                    nxt_start = hdr[i + 1].start if i + 1 < len(hdr) else end
+                    if nxt_start[0] == t.end[0] and (i + 1 < len(hdr) or nxt_start[1] - t.end[1] >= 2):
+                        # the gap after this token (the one before the colon must leave a character: header-only rule)
+                        gend = nxt_start[1] if i + 1 < len(hdr) else nxt_start[1] - 1
+                        g = (t.end[0] - 1, t.end[1], t.end[0] - 1, gend)
+                        for new in ('', ' ', '    ', ' \\\n  '):
+                            if new != lines[g[0]][g[1]:g[3]]:
+                                out.append((src, (new, *g), kind + ':gap'))
+    return out
